@@ -187,10 +187,11 @@ Proof. exact propose_first_approver. Qed.
 
 (* RemoveSigner / SwapSigner: the outgoing signer's approvals vanish from every pending transaction,
    nothing else about the transactions changes, transactions left without approver are deleted *)
-Theorem C12_purged_approvals_do_not_count : forall cur caller self ex o st' r a,
+Theorem C12_purged_approvals_do_not_count : forall cur caller self ex o st' r (x : addr),
   wallet_inv cur ->
-  (exists dec, o = RemoveSigner a dec) \/ (exists b, o = SwapSigner a b) ->
+  (exists dec, o = RemoveSigner x dec) \/ (exists b, o = SwapSigner x b) ->
   wallet_method cur 0 0 caller self ex o = Done st' r ->
+  let a := a_id x in
   a ∉ signers st' /\ purged a (pending cur) (pending st') /\
   (forall id t, pending st' !! id = Some t -> a ∉ t_approved t).
 Proof. exact purged_approvals_do_not_count. Qed.
@@ -215,12 +216,12 @@ Definition ex_ops : list (nat * top) := [
   ex_call 10 101%N (Propose 103%N 60 PSend);
   ex_call 10 102%N (Approve 0 HNone);                                   (* refused: still locked *)
   ex_call 20 102%N (Approve 0 (HOf (Some 101%N) 103%N 60 PSend));
-  ex_call 21 101%N (Propose 105%N 0 (PCall (Propose 104%N 0 (PCall (AddSigner 103%N true)))));
+  ex_call 21 101%N (Propose 105%N 0 (PCall (Propose 104%N 0 (PCall (AddSigner (mk_addr 103%N false) true)))));
   ex_call 21 102%N (Approve 1 HNone);                                   (* 104 -> 105 -> 104: refused *)
-  ex_call 22 101%N (Propose 104%N 0 (PCall (AddSigner 103%N true)));
+  ex_call 22 101%N (Propose 104%N 0 (PCall (AddSigner (mk_addr 103%N false) true)));
   ex_call 22 102%N (Approve 2 HNone);
   ex_call 23 101%N (Propose 103%N 1 PSend);
-  ex_call 23 102%N (Propose 104%N 0 (PCall (RemoveSigner 101%N true)));
+  ex_call 23 102%N (Propose 104%N 0 (PCall (RemoveSigner (mk_addr 101%N true) true)));
   ex_call 23 101%N (Approve 4 HNone);
   ex_call 23 103%N (Approve 4 HNone);
   ex_call 24 103%N (Cancel 3 HNone)
